@@ -94,7 +94,7 @@ theorem C12_query (rr : RowReader) (fs : RemoteReader) (db : Nat) (t : Option Ta
       | none => simp [applyQuery, Except.map, pure, Except.pure]
       | some data =>
         simp only
-        cases rr data (attrs.map fun a => ⟨a.name, a.typid, a.len, a.num, a.align⟩) true with
+        cases readTableRows rr data (attrs.map fun a => ⟨a.name, a.typid, a.len, a.num, a.align⟩) with
         | error e => rfl
         | ok rows => simp only [ok_bind, pure_eq_ok, Except.map, applyQuery]
 
